@@ -245,6 +245,14 @@ def run_check(prop, tier, seed, replay=None):
             pass
     if not cov["samples"]:
         cov["samples"] = [{"theorems": theorems}]
+    # optional hook: a property may add coverage keys of its level (e.g. translation_validation: programs,
+    # disagreements_checked) computed from the evaluated cases
+    hook = getattr(prop, "extra_coverage", None)
+    if hook is not None:
+        try:
+            cov.update(hook(ctx, results) or {})
+        except Exception as e:
+            ctx.notes.append("extra_coverage failed: %r" % (e,))
     ev["coverage"] = cov
     ev["assumptions"] = list(prop.ASSUMPTIONS) + ctx.notes
     ev["violations"] = len(violations) + (1 if (rc and not violations) else 0)
